@@ -297,7 +297,7 @@ def spec_strategy():
             ch.map(lambda a: ["List", a if a != ["None"] else ["Int"], 1, 2]),
             st.tuples(st.sampled_from([["Str"], ["Int"], ["Float"]]), ch).map(lambda t: ["Dict", t[0], t[1] if t[1] != ["None"] else ["Int"]]),
         ),
-        max_leaves=6)
+        max_leaves=6).filter(lambda sp: sp != ["None"])
 
 
 def value_for(spec):
@@ -344,8 +344,58 @@ def random_run(case, ctx):
         ctx.fail(r[1], r[2])
 
 
+# ----------------------------------------------------------------------------- stage fuzz (thorough): native libFuzzer
+def fuzz_decode(data):
+    import atheris
+    fdp = atheris.FuzzedDataProvider(bytes(data))
+    grid = full_grid()
+    lat = [e for e, _ in L.all_values()] + [{"x": "owner()"}]
+    spec = grid[fdp.ConsumeIntInRange(0, len(grid) - 1)]
+    route = ROUTES[fdp.ConsumeIntInRange(0, len(ROUTES) - 1)]
+
+    def value(depth=0):
+        k = fdp.ConsumeIntInRange(0, 8)
+        if k <= 2:
+            return lat[fdp.ConsumeIntInRange(0, len(lat) - 1)]
+        if k == 3:
+            return V.enc(fdp.ConsumeFloat())
+        if k == 4:
+            return fdp.ConsumeInt(8)
+        if k == 5:
+            return fdp.ConsumeUnicodeNoSurrogates(4)
+        if k == 6 and depth < 2:
+            return {"t": [value(depth + 1) for _ in range(fdp.ConsumeIntInRange(0, 3))]}
+        if k == 7 and depth < 2:
+            return {"l": [value(depth + 1) for _ in range(fdp.ConsumeIntInRange(0, 3))]}
+        return [None, True, False][fdp.ConsumeIntInRange(0, 2)]
+    vals = [value() for _ in range(fdp.ConsumeIntInRange(1, 4))]
+    return spec, route, vals
+
+
+def fuzz_target(data, ctx):
+    spec, route, vals = fuzz_decode(data)
+    r = run_seq(spec, route, vals, ctx)
+    if r is not None:
+        import json
+        ctx.fail(r[1], r[2] + " (decoded case: %s)" % json.dumps({"spec": spec, "route": route, "vals": vals}))
+
+
+def fuzz_replay(case, ctx):
+    if "bytes_hex" in case:
+        fuzz_target(bytes.fromhex(case["bytes_hex"]), ctx)
+    else:
+        r = run_seq(case["spec"], case["route"], case["vals"], ctx)
+        if r is not None:
+            ctx.fail(r[1], r[2])
+
+
 def stages(tier):
-    return [
+    extra = []
+    if tier == "thorough":
+        extra.append({"name": "fuzz", "kind": "fuzz", "flavour": "fuzz", "target": fuzz_target, "run": fuzz_replay, "shards": 8,
+                      "max_len": 64, "runs": {"quick": 4000, "thorough": 400000},
+                      "seeds": [bytes([3, 0, 0, 1, 0, 5]), bytes([40, 1, 1, 3]) + b"\x00" * 8, bytes([90, 2, 2, 6, 2, 0, 1, 0, 2])]})
+    return extra + [
         {"name": "grid", "kind": "enum", "batch": True, "gen": grid_gen, "run": grid_run, "shards": 16, "exhaustive": True},
         {"name": "random", "kind": "hyp", "strategy": lambda tier: random_case(), "run": random_run,
          "examples": {"quick": 2500, "thorough": 60000}, "shards": 16},
